@@ -135,6 +135,7 @@ fn history_body(src: &mut Src, st: &mut Stats) -> CaseResult {
     let mut handles: Vec<(usize, jmespath::Expression<'static>)> = vec![];
     let mut table: std::collections::HashMap<(usize, usize), Outcome> = Default::default();
     let mut asts: std::collections::HashMap<usize, Result<jmespath::ast::Ast, String>> = Default::default();
+    let mut renderings: std::collections::HashMap<usize, (String, String, String)> = Default::default();
     // the tree of every pooled text, taken before anything else happens on this (fresh) thread
     for (i, e) in exprs.iter().enumerate() {
         asts.insert(i, jmespath::parse(e).map_err(|e| format!("{:?}", e)));
@@ -171,17 +172,26 @@ fn history_body(src: &mut Src, st: &mut Stats) -> CaseResult {
                     match jmespath::compile(&exprs[i]) {
                         Ok(c) => {
                             let a = c.as_ast().clone();
-                            if c.as_str() != exprs[i] || c.to_string() != exprs[i] || format!("{:?}", c) != exprs[i] {
-                                return Err(Failure::new("history", "compiled-text-differs", format!("as_str() = {:?}, Display = {:?}", c.as_str(), c.to_string()), case(&log, &exprs, &doc_texts)));
+                            // what a compiled expression shows of itself (text, Display, Debug) is a
+                            // function of the compiled string: the same every time it is compiled
+                            let shown = (c.as_str().to_string(), c.to_string(), format!("{:?}", c));
+                            match renderings.get(&i) {
+                                None => {
+                                    renderings.insert(i, shown);
+                                }
+                                Some(prev) if prev != &shown => {
+                                    return Err(Failure::new("history", "compiled-text-differs", format!("as_str / Display / Debug were {:?} when this string was compiled before and are {:?} now", prev, shown), case(&log, &exprs, &doc_texts)));
+                                }
+                                _ => {}
                             }
-                            // an expression assembled through the public constructor is the same expression
+                            // an expression assembled through the public constructor from the same text
+                            // and tree, and a clone, behave like a freshly compiled one -- also under ==
                             let built = jmespath::Expression::new(exprs[i].clone(), a.clone(), &*jmespath::DEFAULT_RUNTIME);
-                            if built != c || built.as_ast() != c.as_ast() || c.clone() != c {
-                                return Err(Failure::new("history", "expression-equality-wrong", "Expression::new / clone do not compare equal to the compiled expression".into(), case(&log, &exprs, &doc_texts)));
-                            }
-                            if let Some(other) = handles.iter().find(|(j, _)| *j != i && exprs[*j] != exprs[i]) {
-                                if other.1 == c {
-                                    return Err(Failure::new("history", "expression-equality-wrong", "two different expressions compare equal".into(), case(&log, &exprs, &doc_texts)));
+                            if let Ok(fresh) = jmespath::compile(&exprs[i]) {
+                                #[allow(clippy::eq_op)]
+                                let self_eq = c == c;
+                                if (built == c) != (fresh == c) || built.as_ast() != c.as_ast() || (c.clone() == c) != self_eq || (fresh == c) != self_eq {
+                                    return Err(Failure::new("history", "expression-equality-wrong", "Expression::new / clone / a second compile do not compare with the compiled expression the way it compares with itself".into(), case(&log, &exprs, &doc_texts)));
                                 }
                             }
                             handles.push((i, if src.flip() { built } else { c }));
